@@ -876,3 +876,22 @@ def diamond_ladder_spec(stages=32):
     full = {t["name"]: 1.0 for t in tasks}
     return {"tasks": tasks, "links": links, "teams": [{"name": "TM0", "targets": list(range(len(tasks))), "workers": [{"name": "W0", "skills": dict(full), "cost": 1.0}, {"name": "W1", "skills": dict(full), "cost": 1.0}]}],
             "label": "diamond-ladder:%d" % stages}
+
+
+def id_namespace_specs():
+    """models whose IDs / names are unique per kind only: (a) teams and workplaces both numbered "1", "2"; (b) two tasks sharing a name, assigned to different teams,
+    next to a third task the second team's worker could do as well"""
+    out = []
+    for wp_id in ("1", "2", "WS"):
+        for w_insp in (5.0, 1.0):
+            out.append({"tasks": [{"name": "assemble", "work": 2.0, "nf": True}, {"name": "inspect", "work": w_insp}], "links": [], "components": [{"name": "c", "tasks": [0]}],
+                        "workplaces": [{"name": "WS", "id": wp_id, "cap": 1.0, "targets": [0], "facilities": [{"name": "machine", "skills": {"assemble": 1.0}, "cost": 1.0}]}],
+                        "teams": [{"name": "1", "targets": [1], "workers": [{"name": "v", "skills": {"inspect": 1.0}, "cost": 1.0}]},
+                                  {"name": "2", "targets": [0, 1], "workers": [{"name": "w", "skills": {"assemble": 1.0, "inspect": 1.0}, "fskills": {"machine": 1.0}, "cost": 1.0}]}],
+                        "label": "id-namespace:workplace-id=%s:%s" % (wp_id, w_insp)})
+    for works in ((1.0, 2.0, 3.0), (3.0, 2.0, 1.0), (2.0, 2.0, 2.0), (2.0, 1.0, 3.0)):
+        out.append({"tasks": [{"name": "weld", "id": "T0", "work": works[0]}, {"name": "weld", "id": "T1", "work": works[1]}, {"name": "paint", "id": "T2", "work": works[2]}], "links": [],
+                    "teams": [{"name": "TM0", "targets": [0], "workers": [{"name": "W0", "skills": {"weld": 1.0}, "cost": 1.0}]},
+                              {"name": "TM1", "targets": [1, 2], "workers": [{"name": "W1", "skills": {"weld": 1.0, "paint": 1.0}, "cost": 2.0}]}],
+                    "label": "id-namespace:same-task-name:%s" % (works,)})
+    return out
